@@ -677,7 +677,7 @@ func (l *Log) buildQuery(ob *Obligation, extraPrelude string, focused bool) stri
 			// short ground facts that touch the slice (type invariants such as 0 <= len <= cap, range facts, branch
 			// conditions) are kept too: they are cheap, and without them a goal about one leaf of a value never sees
 			// the invariant that ties it to its sibling leaves
-			small := i >= nPrelude && any && len(s.text) <= 1500 && !strings.Contains(s.text, "(forall ") && !strings.Contains(s.text, "(exists ")
+			small := ob.Cheap && i >= nPrelude && any && len(s.text) <= 1500 && !strings.Contains(s.text, "(forall ") && !strings.Contains(s.text, "(exists ")
 			if all || (i < nPrelude && any) || small {
 				included[i] = true
 				for sym := range s.syms {
@@ -901,6 +901,30 @@ func discharge(l *Log, extraPrelude string, obs []*Obligation, o dischargeOpts) 
 				}
 			}
 			q := l.buildQuery(ob, extraPrelude, false)
+			if !ob.Smoke {
+				// stage 2: ground instance of the full query (goal skolemised, universal hypotheses instantiated at the
+				// skolem constants, see sexpr.go); only unsat is accepted from it
+				if gq, ok := groundQuery(q); ok {
+					gf := strings.TrimSuffix(file, ".smt2") + ".ground.smt2"
+					_ = os.WriteFile(gf, []byte(gq), 0o644)
+					_ = os.WriteFile(gf+".cvc5", []byte(strings.Replace(gq, "(set-logic ALL)", "(set-logic AUFNIRA)", 1)), 0o644)
+					gt := 6
+					if o.timeoutS < gt {
+						gt = o.timeoutS
+					}
+					best, all := race(gf, gt, o.agree, true)
+					if best.status == "unsat" {
+						ob.SmtFile = gf
+						ob.Result, ob.Solver, ob.Ms, ob.Output = best.status, best.solver, best.ms, best.out
+						for _, r := range all {
+							if r.status == "unsat" {
+								ob.Agree = append(ob.Agree, r.solver)
+							}
+						}
+						return
+					}
+				}
+			}
 			_ = os.WriteFile(file, []byte(q), 0o644)
 			// cvc5: a logic without the strings theory, so that the str.* symbols of the prelude are free
 			_ = os.WriteFile(file+".cvc5", []byte(strings.Replace(q, "(set-logic ALL)", "(set-logic AUFNIRA)", 1)), 0o644)
